@@ -30,16 +30,22 @@ Proof.
   destruct mrs as [|x r]; [reflexivity|]. cbn [has_prefix starts_with]. rewrite andb_true_r. apply Z.eqb_sym.
 Qed.
 
-(** get_call_handles as written in the source, with the extracted prefix and format *)
-Definition get_call_handles_src (tns : text) (t : table) (mrs : text) : option (list desc) :=
-  match (if negb (has_prefix rk_gch_prefix mrs) then render rk_gch_fmt [tns; mrs] else Some mrs) with
-  | Some name => Some (match lookup name t with Some v => v | None => [] end)
-  | None => None
+(** get_call_handles as written in the source (method_request_string may be None), with the extracted
+    prefix and format *)
+Definition get_call_handles_src (tns : text) (t : table) (mrs : option text) : option (list desc) :=
+  match mrs with
+  | None => Some []                                            (* if name is None: return [] *)
+  | Some mrs =>
+      match (if negb (has_prefix rk_gch_prefix mrs) then render rk_gch_fmt [tns; mrs] else Some mrs) with
+      | Some name => Some (match lookup name t with Some v => v | None => [] end)
+      | None => None
+      end
   end.
 
-Lemma src_get_call_handles tns t mrs : get_call_handles_src tns t mrs = Some (get_call_handles tns t mrs).
+Lemma src_get_call_handles tns t mrs : get_call_handles_src tns t mrs = Some (get_call_handles_opt tns t mrs).
 Proof.
-  unfold get_call_handles_src, get_call_handles.
+  destruct mrs as [mrs|]; [|reflexivity].
+  unfold get_call_handles_src, get_call_handles_opt, get_call_handles.
   change rk_gch_prefix with [LBRACE]. rewrite has_prefix_brace.
   destruct (starts_with LBRACE mrs); cbn [negb]; [reflexivity|].
   destruct (src_formats tns mrs) as (_ & -> & _). reflexivity.
